@@ -180,6 +180,21 @@ CHECKS["C17"] = dict(
          "membership of instantiations and near misses, probabilities, programs(), all_constants_instantiation, mass and sum."),
    note=TB + "Values are ints / bools / lists, never None; TTCFGs with constants are exercised through CFG (size_constraint has no constant slots).  Known finding c17_empty_value_list: an empty value list for a slot type drops the slot's mass (no obviously right repair: raise, renormalise or keep the slot).",
    design="5/C17")
+CHECKS["C19"] = dict(
+   technique="Coq proof over the reals of the tensor-to-grammar conversion and axiom-free proof of the encoder layout + extracted-model/implementation correspondence (discrete part exact; float arithmetic measured against closed forms in 60-digit arithmetic)",
+   text=("Theorems (Props/C19.v).  Over exact reals, for any slice, any finite set of derivable rules, any numbers nv, nc of variables and constants, "
+         "0 < v < 1: every converted weight equals its closed form, is positive, the weights sum to 1 - delta with delta = 1e-7*(nv(nv-1)/2 + nv*nc) "
+         "(0 with the ordering trick off), variables and constants together receive v - delta (1 - delta when the non-terminal has only those; "
+         "primitives 1 - v, or 1 alone); the U conversion sums to exactly 1; start probabilities sum to 1; exp(log_probability p) = probability of "
+         "p in the converted grammar = product of exp(tag) along the derivation, for every table and every program of the grammar "
+         "(C19_closed_form, C19_positive, C19_normalised*, C19_delta_value, C19_variable_mass, C19_normalised_u, C19_start_normalised, "
+         "C19_logprob*, C19_defined_on_language).  Axiom-free: encode marks exactly the primitive rules of the derivation and the layout is a "
+         "bijection between distinct (abstraction, primitive) pairs and [0, output_size) (C19_encode, C19_encode_vector, C19_layout, "
+         "C19_start_entries, C19_reduce_is_fold).  The float32/float64 arithmetic of the implementation is NOT proved: each run measures it against "
+         "the closed forms (tolerance 1e-4 + 3 float32 ulps of the slice's largest |log-softmax|) and compares layout, non-terminals, membership "
+         "and encodings exactly with the extracted model, for det and U layers over 1-3 grammars sharing abstractions and tensors up to magnitude 500."),
+   note=TB + "Real-number theorems depend on ClassicalDedekindReals.sig_forall_dec, sig_not_dec, FunctionalExtensionality.functional_extensionality_dep and Classical_Prop.classic (standard library reals); the discrete theorems are closed.  Domain of the correspondence: CFG/UCFG.depth_constraint grammars over random abstract DSLs, the four abstractions of abstractions.py plus identity, v in {0.05, 0.2, 0.9}, |x| <= 500 (start entries <= 800); U grammars with one alternative per rule; weights below 1e-280 are only required to be >= 0.  Autograd is not a subject.",
+   design="5/C19")
 NOT_YET = {}
 def main():
     props = [json.loads(l) for l in open(os.path.join(V, "properties.jsonl"))]
